@@ -581,6 +581,25 @@ macro_rules! gen_c17 {
             for i in 0..evals.len() { for j in 0..i { if evals[i] == evals[j] {
                 acc.hit(stringify!($cs), "two different credential identifiers are evaluated under the same OPRF key", json!({"a": hx(creds[j]), "b": hx(creds[i])}));
             } } }
+            // other passwords (one byte apart, at the start, at the very end of the longest encodable password): different masking keys
+            let base: Vec<u8> = (0..65535u32).map(|i| (i % 249) as u8).collect();
+            let mut last = base.clone(); last[65534] ^= 1; let mut prev = base.clone(); prev[65533] ^= 0x80;
+            let pws: Vec<&[u8]> = vec![b"pw", b"pW", b"pw\0", b"", &base, &last, &prev, &base[..65534], &base[..65533]];
+            let mut pmk: Vec<Vec<u8>> = vec![];
+            for pw in pws.iter() {
+                acc.tried += 1;
+                let mut r4 = StdRng::seed_from_u64(14);
+                let c = ClientRegistration::<$cs>::start(&mut r4, pw)?;
+                let s = ServerRegistration::<$cs>::start(&setup, c.message, p.cred)?;
+                let f = c.state.finish(&mut r4, pw, s.message, ClientRegistrationFinishParameters::default())?;
+                let u = f.message.serialize().to_vec();
+                let npk = <<$cs as CipherSuite>::KeGroup as opaque_ke::key_exchange::group::KeGroup>::PkLen::to_usize();
+                let nh = (u.len() - npk - 32) / 2;
+                pmk.push(u[npk..npk + nh].to_vec());
+            }
+            for i in 0..pmk.len() { for j in 0..i { if pmk[i] == pmk[j] {
+                acc.hit(stringify!($cs), "two different passwords derive the same masking key", json!({"len_a": pws[j].len(), "len_b": pws[i].len(), "first_difference_at": pws[i].iter().zip(pws[j].iter()).position(|(x, y)| x != y)}));
+            } } }
             // another server (other seed): different evaluation for the same identifier
             let setup2 = ServerSetup::<$cs>::new(&mut r3);
             acc.tried += 1;
@@ -725,7 +744,9 @@ macro_rules! gen_c09 {
             expand(secret, &cat(&[&i2osp2(nh), &[full.len() as u8], &full, &[ctx.len() as u8], ctx]), nh)
         };
         let big = vec![0x42u8; 300];
+        let longpw: Vec<u8> = (0..65535u32).map(|i| (i % 251) as u8).collect();   // the longest password the OPRF encodes
         let cases: Vec<(Params, bool)> = vec![
+            (Params { pw: &longpw, cred: b"long", idu: None, ids: None, ctx: None }, true),
             (Params { pw: b"", cred: b"", idu: None, ids: None, ctx: None }, true),
             (Params { pw: b"CorrectHorseBatteryStaple", cred: b"1234", idu: Some(b"alice"), ids: Some(b"bob"), ctx: Some(b"OPAQUE-POC") }, true),
             (Params { pw: b"pw", cred: &big, idu: None, ids: Some(&big), ctx: Some(&big) }, true),
